@@ -12,7 +12,7 @@ ASSUMPTIONS = [
     "a handler that returns false leaves no trace (C06's theorem about the DeliverTx wrapper); gas exhaustion inside a handler is not modelled",
     "wrapped ETH moves only through lock/redeem/report-finality and SEND (other transaction kinds taking an arbitrary currency are outside the model)",
     "job-store writes of the block-end transitions do not fail (local LevelDB of the node); the node-local inputs (witness flag, "
-    "validator address, presence of the broadcast job) are explicit parameters and the theorems hold for all of them",
+    "validator address, presence of the broadcast job) are explicit parameters, the theorems hold for all of them, and the state is proved not to depend on them",
     "authorisation of the signer of a finality report is C04's subject: the theorems count a vote by WHO the report says the validator is",
     "ERC-20: only runERC20Lock's effect on the tracker stores is modelled (do_lock_erc, outside op/step); the ERC-20 mint/burn side and "
     "ext_ERC20redeem.go are not; that part is tied to the code by two scripted scenarios on the real application (`vh c15 -erc20`), not by generated runs",
@@ -34,6 +34,7 @@ CHECKS = {1: "one tracker per external transaction name across the three stores"
           6: "mint / refund happen in the transaction that crosses the threshold",
           7: "a tracker is created only by an accepted lock/redeem of a name in no store, with empty slots (redeem: debited in the same step)",
           9: "a transaction that its kind's Validate refuses (signer without key, negative vote index, SEND to/from a malformed address) has no effect",
+          10: "tracker stores and wrapped balances do not depend on the node's witness flag / job store (twin node with the flag off, same transactions)",
           8: "REGRESSION of the repaired defect C15.mint_to_report_locker: the locked amount was credited to the Locker named in the "
              "threshold-crossing report instead of the account that submitted the lock"}
 
@@ -87,6 +88,14 @@ def payload(cases, shard, ci, step, extra):
 def judge(ctx, cases, mm, sv):
     found = False
     seen = set()
+    for sh_ in sorted(cases):
+        for ci, c in enumerate(cases[sh_]):
+            if c.get("TwinDiv", -1) >= 0:
+                found = True
+                seen.add((sh_, ci))
+                if ctx.violations < 3:
+                    ctx.violation("c%d_%d_k10" % (sh_, ci), payload(cases, sh_, ci, c["TwinDiv"], {"kind": "twin-node-divergence", "check": 10,
+                                  "check_text": CHECKS[10], "divergence": c.get("TwinNote", "")[:3000]}))
     for (sh_, ci, step, chk, cl) in sv:
         if cl in TRIGGERS and ctx.known_finding(TRIGGERS[cl], ""):
             continue
@@ -147,6 +156,7 @@ def run(ctx):
         broken = b
     vh = common.build_harness()
     corpus = os.path.join(common.VERIF, "corpus", "C15.json")
+    cfg_corpus = os.path.join(common.VERIF, "corpus", "C15_cfgs.json")
     if ctx.tier == "thorough":
         nshard, n, blocks = 16, 12, 60
     else:
@@ -158,6 +168,8 @@ def run(ctx):
         a = ["-seed", str(ctx.seed), "-n", str(n), "-blocks", str(blocks)]
         if i == 0 and os.path.exists(corpus):
             a += ["-script", corpus]
+        if i == 0 and os.path.exists(cfg_corpus):
+            a += ["-cfg", cfg_corpus]
         shard_args.append(a)
     reps, cases, mm, sv, st = evaluate(ctx, vh, shard_args)
     agg = lambda k: {x: sum(r[k].get(x, 0) for r in reps.values()) for r0 in reps.values() for x in r0[k]}
@@ -177,7 +189,8 @@ def run(ctx):
         "genuine_votes": st[0], "crossings_yes": st[1], "crossings_no": st[2], "crossings_with_lying_locker": st[3], "steps_in_supply_trigger": st[4],
         "model_mismatches": len(mm), "monitor_findings": len(sv),
         "monitor_findings_by_class": {str(k): sum(1 for x in sv if x[4] == k) for k in (0, 2)},
-        "corpus_cases": len(SCRIPTS),
+        "corpus_cases": len(SCRIPTS) + (len(json.load(open(cfg_corpus))) if os.path.exists(cfg_corpus) else 0),
+        "twin_node_runs": sum(r.get("twin_runs", 0) for r in reps.values()), "twin_node_divergences": sum(r.get("twin_divergences", 0) for r in reps.values()),
         "fixed_finding_witness_holds": (not any(x[0] == 0 and x[1] == 0 for x in sv)) and (not any(x[0] == 0 and x[1] == 0 for x in mm)),
         "samples": [s for r in reps.values() for s in r["samples"]][:3],
         "explanation": "theorems of props/C15.v re-checked; Tracker.v evaluated by vm_compute on every step of every recorded run of the real "
